@@ -18,7 +18,7 @@ var zooTypes = map[string][]zf{
 	"Query": {{"title", "", ""}, {"count", "", ""}, {"ratio", "", ""}, {"flag", "", ""}, {"size", "", ""},
 		{"keeper", "Keeper", "keeper"}, {"keepers", "Keeper", ""}, {"animals", "Animal", ""}, {"things", "Thing", ""},
 		{"grid", "Cell", ""}, {"echo", "", "echo"}, {"tags", "", ""}, {"nums", "", ""}, {"find", "Keeper", "find"}, {"boss", "Keeper", ""},
-		{"ghost", "", ""}, {"relay", "", "relay"}, {"pick", "Thing", "pick"}, {"join", "", "join"}, {"span", "", "span"}, {"chief", "Keeper", ""}, {"blob", "", "blob"}, {"tagged", "", "tagged"}, {"label", "Tag", ""}, {"labelRef", "TagRef", ""}, {"labelAlso", "Tag", ""}, {"vari", "", "vari"}, {"triple", "", ""}},
+		{"ghost", "", ""}, {"relay", "", "relay"}, {"pick", "Thing", "pick"}, {"join", "", "join"}, {"span", "", "span"}, {"chief", "Keeper", ""}, {"blob", "", "blob"}, {"tagged", "", "tagged"}, {"label", "Tag", ""}, {"labelRef", "TagRef", ""}, {"labelAlso", "Tag", ""}, {"vari", "", "vari"}, {"triple", "", ""}, {"sized", "", "sized"}},
 	"Keeper": {{"name", "", ""}, {"age", "", ""}, {"pets", "Animal", ""}, {"friend", "Keeper", ""}, {"cells", "Cell", ""},
 		{"motto", "", "motto"}, {"rank", "", ""}, {"dogs", "Dog", ""}, {"ghost", "", ""}, {"nick", "", "nick"}, {"code", "", "code"}},
 	"Dog":      {{"name", "", ""}, {"legs", "", ""}, {"barks", "", ""}, {"owner", "Keeper", ""}, {"code", "", ""}, {"call", "", "call"}},
@@ -147,6 +147,9 @@ type ReqOpt struct {
 	// VarDirectivesInMeta puts @skip/@include with variables on selections
 	// beneath __schema / __type.
 	VarDirectivesInMeta bool
+	// Sized allows sized(s: Size, l: [Size]): enum literals as arguments, one of
+	// them (HUGE) only a value once the schema has been extended.
+	Sized bool
 	// BadDefaults now and then declares a variable with a default that does not
 	// fit its type (the document is accepted; a call that leaves the variable
 	// out fails, every time).
@@ -206,6 +209,18 @@ func (g *reqGen) argsFor(kind string) string {
 			parts = []string{"name: " + g.addVar("kn", "String!", n, strconv.Quote(n))}
 		} else {
 			parts = []string{"name: " + strconv.Quote(n)}
+		}
+	case "sized":
+		// enum literals as arguments; HUGE is not a value of Size unless the
+		// schema was extended (the check does that between two calls)
+		vals := []string{"BIG", "SMALL", "HUGE"}
+		switch g.t.Draw(3) {
+		case 0:
+			parts = []string{"s: " + vals[g.t.Draw(3)]}
+		case 1:
+			parts = []string{"l: [" + vals[g.t.Draw(3)] + ", " + vals[g.t.Draw(3)] + "]"}
+		default:
+			parts = []string{"s: " + vals[g.t.Draw(3)], "l: [" + vals[g.t.Draw(3)] + "]"}
 		}
 	case "echo":
 		s := strconv.Quote("s" + strconv.Itoa(g.t.Draw(9)))
@@ -405,6 +420,10 @@ func (g *reqGen) fieldsOf(typ string) []zf {
 			continue // only through the fixed AltRequests / LabelRequests
 		case "blob":
 			if !g.o.Blob {
+				continue
+			}
+		case "sized":
+			if !g.o.Sized {
 				continue
 			}
 		case "tagged":
